@@ -40,8 +40,11 @@ def fragment_event(pp, tid, A, types, charges, isotopes, rules, max_losses, mono
     ammonia = any(r["regex"] == AMMONIA["regex"] for r in rules)
     custom = [r for r in rules if r["regex"] not in (WATER["regex"], AMMONIA["regex"])]
 
+    # via = "ann": ONE annotation object serves every call of the event (parse once, fragment many times)
+    obj = None if via == "str" else anngen.build(pp, A)
+
     def src():
-        return text if via == "str" else anngen.build(pp, A)
+        return text if via == "str" else obj
 
     def kw(rt):
         return dict(ion_types=list(types) if len(types) > 1 else types[0], charges=list(charges),
